@@ -27,17 +27,19 @@ def main():
     nosuite = "--nosuite" in sys.argv
     wt, name, pid = args[0], args[1], args[2]
     checks = args[3:] or [pid]
-    seed = os.path.join(wt, "_seed")
+    sub = [a.split("=", 1)[1] for a in sys.argv[1:] if a.startswith("--seed=")]
+    seedrel = sub[0] if sub else "_seed"
+    seed = os.path.join(wt, seedrel)
     patch = os.path.join(seed, "patch.diff")
     env = dict(os.environ, PYTHONPATH=os.path.join(wt, "src"))
     meta = dict(property=pid, name=name, ran=[])
     # -- unmodified
     rc, out = sh("git -C %s checkout -- src" % wt)
-    rc0, out0 = sh("/venv/bin/python _seed/demo.py", cwd=wt, env=env, timeout=1200)
+    rc0, out0 = sh("/venv/bin/python %s/demo.py" % seedrel, cwd=wt, env=env, timeout=1200)
     meta["ran"].append(dict(cmd="demo.py on unmodified tree", exit=rc0, tail=out0[-300:]))
     rc, out = sh("git -C %s apply %s" % (wt, patch))
     assert rc == 0, out
-    rc1, out1 = sh("/venv/bin/python _seed/demo.py", cwd=wt, env=env, timeout=1200)
+    rc1, out1 = sh("/venv/bin/python %s/demo.py" % seedrel, cwd=wt, env=env, timeout=1200)
     meta["ran"].append(dict(cmd="demo.py with patch", exit=rc1, tail=out1[-400:]))
     if not nosuite:
         t0 = time.time()
